@@ -45,6 +45,16 @@ class ElemRaises(Exception):
         self.exc = exc
 
 
+class PathRaises(Exception):
+    """A value that is needed by an operator (operand, receiver, argument) is a rejection on this alternative: the
+    enclosing STATEMENT raises under the alternative's conditions (a validating helper used inside an expression)."""
+
+    def __init__(self, conds, exc):
+        super().__init__(exc)
+        self.conds = conds
+        self.exc = exc
+
+
 class NeedSplit(Exception):
     """A loop body is piecewise in a loop-invariant condition: the whole loop is re-run under each assumption."""
 
@@ -281,6 +291,8 @@ class Evaluator:
             star = isinstance(a, ast.Starred)
             for c, d in alts:
                 for c2, v in self.ev(a.value if star else a, env, ctx):
+                    if isinstance(v, Raise):
+                        raise PathRaises(c | c2, v.exc)
                     dd = dict(d)
                     dd[i] = Rat.atom(("star", as_term(v))) if star else v
                     nxt.append((c | c2, dd))
@@ -289,6 +301,8 @@ class Evaluator:
             nxt = []
             for c, d in alts:
                 for c2, v in self.ev(k.value, env, ctx):
+                    if isinstance(v, Raise):
+                        raise PathRaises(c | c2, v.exc)
                     dd = dict(d)
                     dd[k.arg if k.arg is not None else "**"] = v
                     nxt.append((c | c2, dd))
@@ -336,10 +350,15 @@ class Evaluator:
             return None
         # arguments
         alts = [(frozenset(), [], {})]
+        def _vals(node_, c_):
+            for c2, v in self.ev(node_, env, ctx):
+                if isinstance(v, Raise):
+                    raise PathRaises(c_ | c2, v.exc)
+                yield c2, v
         for a in call.args:
-            alts = [(c | c2, pos + [v], kw) for c, pos, kw in alts for c2, v in self.ev(a, env, ctx)]
+            alts = [(c | c2, pos + [v], kw) for c, pos, kw in alts for c2, v in _vals(a, c)]
         for k in call.keywords:
-            alts = [(c | c2, pos, dict(kw, **{k.arg: v})) for c, pos, kw in alts for c2, v in self.ev(k.value, env, ctx)]
+            alts = [(c | c2, pos, dict(kw, **{k.arg: v})) for c, pos, kw in alts for c2, v in _vals(k.value, c)]
         params = f.params[1:] if (f.is_method or f.is_classmethod) else list(f.params)
         out = []
         for c, pos, kw in alts:
@@ -409,6 +428,21 @@ class Evaluator:
             return self._exec_stmt(st, conds, env, ctx)
         except ElemRaises as er:
             return [(conds, env, Raise(er.exc))]
+        except PathRaises as pr:
+            todo = sorted((k for k in pr.conds if k not in self.assume and k not in conds), key=repr)
+            if not todo:
+                return [(conds, env, Raise(pr.exc))]
+            out = []
+            saved = self.assume
+            for cc in (todo[0], todo[0].negate()):
+                if _contradict(conds | {cc}):
+                    continue
+                self.assume = saved | {cc}
+                try:
+                    out.extend(self.exec_stmt(st, conds | {cc}, env, ctx))
+                finally:
+                    self.assume = saved
+            return out
         except NeedSplit as ns:
             closed = isinstance(ns.cond.x, tuple) and len(ns.cond.x) == 3 and ns.cond.x[0] == "any"
             if isinstance(st, (ast.For, ast.While)) or ("loopvar" in repr(ns.cond.x) and not closed):
@@ -494,6 +528,15 @@ class Evaluator:
                         self._fx(e2, ("expr", as_term(v)))
                         out.append((conds | c2, e2, None))
                     return out
+            if isinstance(st.value, ast.Call):
+                # a validating helper called for its rejection only (`_check(x)` as a statement): the paths on which it
+                # rejects end here, the others go on (its value is discarded)
+                try:
+                    vs = self.ev(st.value, env, ctx)
+                except Unreadable:
+                    vs = None
+                if vs is not None and any(isinstance(v, Raise) for _c, v in vs):
+                    return [(conds | c2, env, v if isinstance(v, Raise) else None) for c2, v in vs if not _contradict(conds | c2)]
             raise Unreadable(f"expression statement {ast.unparse(st)[:60]} in {ctx.f.qualname}")
         if isinstance(st, (ast.Assign, ast.AnnAssign, ast.Return, ast.Expr)) and self.effects_mode and ctx.fx \
                 and isinstance(getattr(st, "value", None), ast.IfExp) and self._has_effects([ast.Expr(value=st.value)]):
@@ -533,6 +576,9 @@ class Evaluator:
                     return out
             for c2, v in self.ev(st.value, env, ctx):
                 if _contradict(conds | c2):
+                    continue
+                if isinstance(v, Raise):
+                    out.append((conds | c2, env, v))      # `x = checked(v)`: the helper rejected, nothing is bound
                     continue
                 e2 = dict(env)
                 for t in targets:
@@ -1472,6 +1518,8 @@ class Evaluator:
                 return [(frozenset(), cv)]
             out = []
             for c, b in self.ev(node.value, env, ctx):
+                if isinstance(b, Raise):
+                    raise PathRaises(c, b.exc)
                 out.append((c, self.attr(b, node.attr, ctx, node)))
             return out
         if isinstance(node, ast.Subscript):
@@ -1665,6 +1713,25 @@ class Evaluator:
         if len(node.generators) != 1:
             raise Unreadable("nested comprehension")
         g = node.generators[0]
+        if isinstance(g.iter, (ast.Tuple, ast.List)) and len(g.iter.elts) <= 4 and not g.ifs and isinstance(node, ast.ListComp) \
+                and not any(isinstance(x, ast.Starred) for x in g.iter.elts):
+            # a comprehension over a short display of known items is the display of its elements, item by item
+            items = []
+            acc = frozenset()
+            for x in g.iter.elts:
+                xv = self.ev(x, env, ctx)
+                if len(xv) != 1 or xv[0][0]:
+                    raise Unreadable("piecewise item of a display comprehension")
+                e1 = dict(env)
+                self.bind(g.target, xv[0][1], e1, ctx)
+                vs = [(c, v) for c, v in self.ev(node.elt, e1, ctx) if not _contradict(c | self.assume)]
+                for c, v in vs:
+                    if isinstance(v, Raise):
+                        raise PathRaises(c, v.exc)
+                if not vs or any(not _same_value(v, vs[0][1]) for _c, v in vs[1:]):
+                    raise Unreadable("piecewise element of a display comprehension")
+                items.append(vs[0][1])
+            return Tup(items, lit="list")
         it_term, binds = self.iter_binding(g.iter, g.target, env, ctx, body=[node.elt] + list(g.ifs), snapshot_ok=True)
         e2 = dict(env)
         e2.update(binds)
@@ -1754,6 +1821,8 @@ class Evaluator:
     def num_alts(self, node, env, ctx):
         out = []
         for c, v in self.ev(node, env, ctx):
+            if isinstance(v, Raise):
+                raise PathRaises(c, v.exc)
             out.append((c, self.as_num(v, node, ctx)))
         return out
 
@@ -1931,6 +2000,8 @@ class Evaluator:
                 star = isinstance(a, ast.Starred)
                 for c, pos, kw in alts:
                     for c2, v in self.ev(a.value if star else a, env, ctx):
+                        if isinstance(v, Raise):
+                            raise PathRaises(c | c2, v.exc)
                         # f(*xs): the whole sequence is one opaque positional block
                         nxt.append((c | c2, pos + [Rat.atom(("star", as_term(v))) if star else v], kw))
                 alts = nxt
@@ -1938,6 +2009,8 @@ class Evaluator:
                 nxt = []
                 for c, pos, kw in alts:
                     for c2, v in self.ev(k.value, env, ctx):
+                        if isinstance(v, Raise):
+                            raise PathRaises(c | c2, v.exc)
                         kk = dict(kw)
                         kk[k.arg if k.arg is not None else "**"] = v
                         nxt.append((c | c2, pos, kk))
